@@ -26,7 +26,10 @@ Record gcase := mkCG {
   cg_ext : Z * Z * Z * Z           (* XBearing, YBearing, Width, Height: float32 bit patterns *)
 }.
 
-Inductive case := CCff (lsubrs gsubrs : list (list Z)) (glyphs : list gcase).
+Inductive case :=
+| CCff (lsubrs gsubrs : list (list Z)) (glyphs : list gcase)
+(* CFF2 at the default coordinates: per ItemVariationData its region count and validity, the default vsindex *)
+| CCff2 (lsubrs gsubrs : list (list Z)) (vs : list (Z * bool)) (default_vs : Z) (glyphs : list gcase).
 
 Definition fuel_z : Z := 300000.
 
@@ -97,8 +100,8 @@ Definition shape_ok (g : gcase) : bool :=
   let segs := map (dec_seg (cg_shift g)) (cg_segs g) in
   contours_ok (Some (0, 0)) (0, 0) segs && bounds_ok segs (cg_bounds g) && ext_is (cg_ext g) (to_extents (cg_bounds g)).
 
-Definition glyph_kind (lsubrs gsubrs : list (list Z)) (g : gcase) : nat :=
-  match load_glyph (Z.to_nat fuel_z) (cg_cs g) lsubrs gsubrs with
+Definition result_kind (res : res (list cseg * (Z * Z * Z * Z))) (g : gcase) : nat :=
+  match res with
   | Ok (segs, b) =>
       if cg_err g then 1%nat
       else if negb (cs_exact segs) then 1%nat
@@ -107,11 +110,18 @@ Definition glyph_kind (lsubrs gsubrs : list (list Z)) (g : gcase) : nat :=
   | Err _ => if cg_err g then 0%nat else 1%nat
   | _ => 1%nat
   end.
+Definition glyph_kind (lsubrs gsubrs : list (list Z)) (g : gcase) : nat :=
+  result_kind (load_glyph (Z.to_nat fuel_z) (cg_cs g) lsubrs gsubrs) g.
+Definition glyph_kind2 (lsubrs gsubrs : list (list Z)) (vs : list (Z * bool)) (dvs : Z) (g : gcase) : nat :=
+  result_kind (load_glyph2 (Z.to_nat fuel_z) (cg_cs g) lsubrs gsubrs vs dvs) g.
 
 Definition case_kinds (c : case) : list nat :=
   match c with
   | CCff lsubrs gsubrs glyphs =>
       let ks := map (glyph_kind lsubrs gsubrs) glyphs in
+      (if existsb (Nat.eqb 1) ks then [1%nat] else []) ++ (if existsb (Nat.eqb 2) ks then [2%nat] else [])
+  | CCff2 lsubrs gsubrs vs dvs glyphs =>
+      let ks := map (glyph_kind2 lsubrs gsubrs vs dvs) glyphs in
       (if existsb (Nat.eqb 1) ks then [1%nat] else []) ++ (if existsb (Nat.eqb 2) ks then [2%nat] else [])
   end.
 
